@@ -216,6 +216,27 @@ func (h *H) Step(line string) {
 			class = "missing" // non-debug build: nil column dereference
 		}
 		h.result(class, "")
+	case "getrel":
+		// getrel eN <u|m> cM: the relation target of one component, which the entity may lack
+		// (must be rejected in every build) or which may not be a relation (zero entity)
+		e, ok1 := h.entOf(toks[1])
+		cs, ok2 := h.compList(toks[3])
+		if !ok1 || !ok2 || len(cs) != 1 {
+			skip()
+			return
+		}
+		var t ecs.Entity
+		class := try(func() {
+			if toks[2] == "m" {
+				t = cs[0].m.GetRelation(e)
+			} else {
+				t = h.u.GetRelation(e, cs[0].id)
+			}
+		})
+		if class == "runtime" {
+			class = "missing" // non-debug build: nil column dereference
+		}
+		h.result(class, handle(t))
 	case "setrel":
 		e, ok1 := h.entOf(toks[1])
 		a, ok2 := h.compArgs(toks[3:])
